@@ -159,6 +159,27 @@ def cookie_args(has_samesite: bool, strict: bool, single_quotes: bool, other: bo
     return fin(got == exp)
 
 
+def https_proxy_config_arg(n_pos: int, n_kw: int) -> bool:
+    """HTTPSConnectionModifier.updated_args: HTTPConnectionPool's 10th positional parameter (_proxy_config) does
+    not line up with HTTPSConnectionPool's, so exactly that argument is turned into a keyword when it is passed
+    positionally; every other argument - positional or keyword, before or after it - is the identical node.
+    pre: 0 <= n_pos <= 11 and 0 <= n_kw <= 2
+    post: _
+    """
+    from core_codemods.https_connection import HTTPSConnectionModifier
+
+    args = [cst.Arg(value=cst.Name("p%d" % i)) for i in range(n_pos)] + [cst.Arg(value=cst.Name("k%d" % i), keyword=cst.Name("kw%d" % i)) for i in range(n_kw)]
+    stub = type("S", (), {"count_positional_args": HTTPSConnectionModifier.count_positional_args})()
+    new = HTTPSConnectionModifier.updated_args(stub, list(args))
+    ok = len(new) == len(args)
+    for i, a in enumerate(args):
+        if n_pos == 10 and i == 9:
+            ok = ok and new[i].keyword is not None and new[i].keyword.value == "_proxy_config" and new[i].value is a.value
+        else:
+            ok = ok and new[i] is a
+    return fin(ok)
+
+
 def planted_drop_arg(spec: List[Tuple[int, int]]) -> bool:
     """Self-test: a replace that drops an unrelated keyword argument must be refuted.
     pre: len(spec) <= 2
@@ -177,16 +198,19 @@ def warmup():
     add_arg_and_targets([(0, 0), (3, 1)])
     cookie_args(True, True, True, True)
     cookie_args(False, False, False, False)
+    https_proxy_config_arg(10, 1)
+    https_proxy_config_arg(3, 2)
 
 
 SPEC = {
     "property": "C16",
     "level": "model_checking",
-    "files": ["src/codemodder/codemods/libcst_transformer.py", "src/core_codemods/secure_cookie_mixin.py"],
+    "files": ["src/codemodder/codemods/libcst_transformer.py", "src/core_codemods/secure_cookie_mixin.py", "src/core_codemods/https_connection.py"],
     "functions": [
         "LibcstResultTransformer.replace_args / make_new_arg / add_arg_to_call / update_arg_target / update_call_target",
         "codemodder.codemods.libcst_transformer._match_with_existing_arg",
         "SecureCookieMixin._choose_new_args",
+        "HTTPSConnectionModifier.updated_args / count_positional_args",
     ],
     "bounds": {
         "quick": "calls with <= 3 arguments (thorough 4): per argument keyword selector {positional, verify, timeout, other} and star / '=' spacing selector, libcst-valid orderings without repeated keywords; 1-2 NewArgs with symbolic add_if_missing",
@@ -202,6 +226,7 @@ SPEC = {
         Xh("replace_args_only_named", 400, 1200),
         Xh("add_arg_and_targets", 200, 600),
         Xh("cookie_args", 100, 200),
+        Xh("https_proxy_config_arg", 150, 300),
         Xh("planted_drop_arg", 60, 120, twin=False, expect="refuted"),
     ],
 }
